@@ -628,12 +628,14 @@ func TestC17ReadOnly(t *testing.T) {
 		cfg.ErrProbes, cfg.Cursors, cfg.Probes, cfg.Readers = false, false, false, false
 		cfg.CommitWeight = 20
 		failg := func(v *drv.Violation) {
+			drv.SetFailing()
 			log := g.Log
 			g.Cleanup()
 			failCase(rt, replayDoc{Property: "C17", Kind: "history", Ops: log}, v)
 		}
 		runHistory(rt, g, cfg, nil, failg)
 		finishHistory(g, failg)
+		drv.SetFailing()
 		log := g.Log
 		g.Cleanup()
 		preload := rapid.Bool().Draw(rt, "preload")
